@@ -24,6 +24,15 @@ def defer_chain(k: int, cls: str = "A") -> str:
     return "\n".join(out) + "\n"
 
 
+def defer_cycle(k: int, cls: str = "A") -> str:
+    """attribute types that depend on each other in a cycle of length k ≥ 1: never determined — the checker must give
+    up after `last_pass` ("Cannot determine type"), not defer for ever"""
+    out = [f"class {cls}:", "    def f0(self) -> None:\n        reveal_type(self.x1)"]
+    for i in range(1, k + 1):
+        out.append(f"    def f{i}(self) -> None:\n        self.x{i} = self.x{i % k + 1}")
+    return "\n".join(out) + "\n"
+
+
 def _tname(rng, names: list[str]) -> str:
     base = rng.choice(names + ["int", "str", "None", "Any"])
     r = rng.random()
@@ -102,8 +111,10 @@ def program(rng) -> tuple[str, dict[str, str], str]:
         elif kind == "overload":
             body.append(f"@overload\ndef {nm}(a: int) -> {t()}: ...\n@overload\ndef {nm}(a: str) -> {t()}: ...\n"
                         f"def {nm}(a: Any) -> Any:\n    return {rng.choice(names)}")
-        else:
+        elif rng.random() < 0.7:
             body.append(defer_chain(rng.randint(1, 5), nm).rstrip("\n"))
+        else:
+            body.append(defer_cycle(rng.randint(1, 4), nm).rstrip("\n"))
     main = HEADER + "\n\n".join(body) + "\n"
     files: dict[str, str] = {}
     if rng.random() < 0.35:
